@@ -38,11 +38,11 @@ inductive Res where
   | fresh (j : Nat)           -- the identity of the j-th node literal of the path
   deriving DecidableEq, Repr
 
-/-- symbolic state of one `$i` at some point of the action: which of its fields have been stored into, and
-    what the stored values may have brought with them -/
+/-- symbolic state of one `$i` at some point of the action: the fields that have been stored into, each with
+    what the value stored last may have brought with it *beyond* what the field held when the production was
+    reduced (latest store first, one entry per field) -/
 structure SArg where
-  touched : List Nat := []
-  extra : List Res := []
+  ov : List (Nat × List Res) := []
   deriving Repr
 
 /-- symbolic right-hand side: states of the `$i` that have been stored into (absent = untouched) -/
@@ -69,10 +69,22 @@ def senvAt (envs : List SEnv) (k : Nat) : SEnv :=
   | some e => e
   | none => slastEnv envs
 
-def wholeB (e : SEnv) (i : Nat) : List Res := .root i :: (sget e i).extra
+def ovGet (ov : List (Nat × List Res)) (f : Nat) : List Res :=
+  match ov.find? (fun e => e.1 == f) with
+  | some e => e.2
+  | none => []
 
-def fieldB (e : SEnv) (i f : Nat) : List Res :=
-  if (sget e i).touched.contains f then wholeB e i else [.fld i f]
+def ovSet (ov : List (Nat × List Res)) (f : Nat) (b : List Res) : List (Nat × List Res) :=
+  (f, b) :: ov.filter (fun e => !(e.1 == f))
+
+def ovAll : List (Nat × List Res) → List Res
+  | [] => []
+  | e :: r => e.2 ++ ovAll r
+
+def wholeB (e : SEnv) (i : Nat) : List Res := .root i :: ovAll (sget e i).ov
+
+/-- field `f` of `$i` now: what it held at the reduction, plus what was stored into it -/
+def fieldB (e : SEnv) (i f : Nat) : List Res := .fld i f :: ovGet (sget e i).ov f
 
 /-- `t.(*K).F`: precise when `t` is a right-hand-side value, otherwise everything `t` owns -/
 def fldB (sc : SCtx) (t : Tm) (f : Nat) (rec : List Res) : List Res :=
@@ -109,14 +121,20 @@ def bObjs (sc : SCtx) : List ObjLit → List (List Res) → List (List Res)
   | [], acc => acc
   | o :: os, acc => bObjs sc os (acc ++ [.fresh acc.length :: bTms { sc with objs := acc } o.fields])
 
-/-- one store, symbolically.  `$i.F = x` with `F` not stored into before replaces what `F` held: when `x`
-    was computed from the old `$i.F` (an append to the field), that resource moves, it is not duplicated. -/
+/-- one store, symbolically: `$i.F = x` replaces what `F` held.  When `x` was computed from what `F` held at the
+    reduction (an append to the field), that resource stays where it is — it is not counted a second time. -/
 def sStore (e : SEnv) (i f : Nat) (bx : List Res) : SEnv :=
   let a := sget e i
-  let bx' := if !a.touched.contains f && bx.contains (.fld i f) then bx.erase (.fld i f) else bx
-  sset e i { touched := f :: a.touched, extra := a.extra ++ bx' }
+  let bx' := if bx.contains (.fld i f) then bx.erase (.fld i f) else bx
+  sset e i { ov := ovSet a.ov f bx' }
 
-/-- the stores of a path; `none`: a store the analysis does not follow (through a list element) -/
+/-- a store further down (`$i.F.G = x`, `$i[0].G = x`): whatever `x` brings is added to what the first step of the
+    path (a field, or the first / last element of a list) leads to -/
+def sStorePath (e : SEnv) (i p : Nat) (bx : List Res) : SEnv :=
+  let a := sget e i
+  sset e i { ov := (p, bx ++ ovGet a.ov p) :: a.ov }
+
+/-- the stores of a path -/
 def sRunMuts (objs : List ObjLit) : List TMut → List SEnv → Option (List SEnv)
   | [], envs => some envs
   | m :: ms, envs =>
@@ -124,8 +142,9 @@ def sRunMuts (objs : List ObjLit) : List TMut → List SEnv → Option (List SEn
     let sc : SCtx := { sc0 with objs := bObjs sc0 objs [] }
     let env := slastEnv envs
     if m.arg == 0 then sRunMuts objs ms (envs ++ [env])
-    else if !m.path.isEmpty then none
-    else sRunMuts objs ms (envs ++ [sStore env m.arg m.field (bTm sc m.val)])
+    else match m.path with
+      | [] => sRunMuts objs ms (envs ++ [sStore env m.arg m.field (bTm sc m.val)])
+      | p :: _ => sRunMuts objs ms (envs ++ [sStorePath env m.arg p (bTm sc m.val)])
 
 def sPathCtx (p : TPath) : Option SCtx :=
   match sRunMuts p.objs p.muts [[]] with
